@@ -112,6 +112,27 @@ pub async fn history_cfg<TC: Configuration>(cfg: &str, only: Option<&str>, out: 
                 out.push(f(clause, vec!["c07".into(), cfg.into(), name.clone()], format!("[{cfg}] {params:?} history of 'a' with: {name}"), "rejected", format!("accepted: versions {:?}", r.iter().map(|x| x.version).collect::<Vec<_>>())));
             }
         }
+        // tombstoned entries under the LENIENT verifier stay bound to their VRF label and to their own leaf
+        if k >= 2 {
+            let lenient = HistoryVerificationParams::AllowMissingValues { history_params: params };
+            let mut tv: Vec<(String, HistoryProof)> = vec![];
+            let mut q = proof.clone(); q.update_proofs[k - 1].value = AkdValue(vec![]);
+            if !q.update_proofs[k - 1].existence_vrf_proof.is_empty() { q.update_proofs[k - 1].existence_vrf_proof[0] ^= 1; }
+            tv.push(("tombstoned entry: one bit of its VRF proof flipped (AllowMissingValues)".into(), q));
+            let mut q = proof.clone(); q.update_proofs[k - 1].value = AkdValue(vec![]);
+            q.update_proofs[k - 1].existence_vrf_proof = proof.update_proofs[0].existence_vrf_proof.clone();
+            tv.push(("tombstoned entry: VRF proof of another version (AllowMissingValues)".into(), q));
+            let mut q = proof.clone(); q.update_proofs[k - 1].value = AkdValue(vec![]);
+            q.update_proofs[k - 1].existence_proof = proof.update_proofs[0].existence_proof.clone();
+            tv.push(("tombstoned entry: membership proof of another version's leaf (AllowMissingValues)".into(), q));
+            for (name, q) in tv {
+                if let Some(o) = only { if o != name { continue; } }
+                n += 1;
+                if let Ok(r) = verify(q, lenient) {
+                    out.push(f("verify_history/verify_single_update_proof#E_update", vec!["c07".into(), cfg.into(), name.clone()], format!("[{cfg}] {params:?} history of 'a' with: {name}"), "rejected", format!("accepted: versions {:?}", r.iter().map(|x| x.version).collect::<Vec<_>>())));
+                }
+            }
+        }
         // the lenient verifier accepts an emptied value (and reports it empty), everything else as before
         n += 1;
         let mut p = proof.clone();
